@@ -26,7 +26,7 @@ ASSUMPTIONS = ['EEPROM layout: "0xBC", version, channel, speed, pitch trim, roll
                'reads that would run past the 112-byte 1-wire memory fail on the device and are not generated']
 REQUIRED = ['mon.i2c_roundtrip', 'mon.i2c_corruptions', 'mon.ow_roundtrip', 'mon.ow_corruptions', 'mon.lh_mem', 'mon.lh_yaml',
             'mon.param_yaml', 'mon.poly4d', 'mon.led_timings', 'mon.deck_info', 'mon.loco', 'mon.loco2', 'mon.ow_all_lengths',
-            'mon.compressed_trajectory_uploads']
+            'mon.compressed_trajectory_uploads', 'mon.lh_memory_to_file_to_memory']
 DESC_TIMEOUT = 900
 
 
@@ -346,6 +346,28 @@ def run_lh(desc, ctx):
             ctx.violate('lh:memory-round-trip-differs', {'bs': bs})
         if h.reads[-2:] != [(bs * 0x100, 49), (0x1000 + bs * 0x100, 61)]:
             ctx.violate('lh:read-address-or-length-wrong', {'reads': h.reads[-2:]})
+        # the whole chain: objects parsed from the memory image -> configuration file -> objects -> memory image
+        if len(got) == 2 and it % 4 == 0:
+            from cflib.localization.lighthouse_config_manager import LighthouseConfigFileManager
+            dtmp = tempfile.mkdtemp(prefix='vf_c14_')
+            try:
+                fn = os.path.join(dtmp, 'chain.yaml')
+                ctx.count('mon.lh_memory_to_file_to_memory')
+                try:
+                    LighthouseConfigFileManager.write(fn, geos={bs: got[0]}, calibs={bs: got[1]}, system_type=2)
+                    rg, rc, rst = LighthouseConfigFileManager.read(fn)
+                    okc = (set(rg) == ({bs} if g.valid else set())) and (set(rc) == ({bs} if c.valid else set())) and \
+                        (not g.valid or geo_eq(rg[bs], g)) and (not c.valid or calib_eq(rc[bs], c))
+                    if okc and g.valid:
+                        h2 = MemHandler(size=0x2000)
+                        LighthouseMemory(id=2, type=0x14, size=0x2000, mem_handler=h2).write_geo_data(bs, rg[bs], lambda m, a: None)
+                        okc = [(w[0], w[1]) for w in h2.writes] == [(bs * 0x100, ref_g)]
+                    if not okc:
+                        ctx.violate('lh:memory-file-memory-chain-differs', {'bs': bs})
+                except Exception as e:  # noqa
+                    ctx.violate('lh:file-written-from-memory-objects-rejected:%s' % type(e).__name__, {'bs': bs, 'error': repr(e)[:300]})
+            finally:
+                shutil.rmtree(dtmp, ignore_errors=True)
         if it == 0:
             ctx.sample({'lh_geometry_image': ref_g.hex(), 'bs': bs})
 
